@@ -10,6 +10,26 @@ CHECKS = {
   "note": "Assumes rbacv1.PolicyRule semantics and that the Applicator enforces MustBeControllableBy. Not decided: the allow tree versus Kubernetes' own rule-covering relation for all rule pairs, registry reference parsing semantics.",
   "technique": "static analysis: gate-crossing reachability on go/ssa CFG, SSA provenance of PolicyRule literals, constant-table inclusion, loop-exit analysis",
  },
+ "C01": {
+  "text": "Static analysis of both composers: create-capable writes of composed resources are reached only over the success edge of the XR write that persists spec.resourceRefs, that write only over the success edge of garbage collection; names are allocated/inherited before objects enter the collection that is referenced and applied; the reference array is sorted; observation skips a referenced resource only for the three stated reasons. Decides the ordering/dataflow discipline that preserves 'live and controlled => referenced' at every instruction boundary, not the behaviour of the API server or of later reconciles.",
+  "note": "Assumes each API call is atomic and acknowledged writes are durable. Not decided: crash during a call, cache staleness, generated-name collisions, quiescence beyond the sorted array, anonymous P&T templates.",
+  "technique": "static analysis: gate-crossing reachability (typestate) on go/ssa CFG, SSA provenance, loop-bypass analysis with a whitelist of skip edges",
+ },
+ "C02": {
+  "text": "Static analysis of every write site in the anchored controllers: each Applicator.Apply of a child object carries a controller guard keyed on the owner's UID (exceptions by symbol with reason); GC, observation, CRD teardown, the establisher's take-over and the claim secret copy are reachable only over the edges of an owner test on the very object written. Decides guard presence on all paths, not the API server's own rejection of a second controller.",
+  "note": "Assumes the runtime Applicator honours MustBeControllableBy and AddControllerReference refuses a different controller. Not decided: server-side-apply conflict behaviour, byte-for-byte equality of untouched objects, package runtime objects (outside the enumerated placements).",
+  "technique": "static analysis: API effect inventory + option provenance, gate-crossing reachability on go/ssa CFG, escape check of the validated snapshot",
+ },
+ "C03": {
+  "text": "Static analysis: in FunctionComposer.Compose no API effect can precede a RunFunction call or sit in the pipeline loop; the severity switch is exhaustive and its FATAL arm returns an error; the requirements loop is constant-bounded, returns a response only on the equality or fatal edge and fails closed; both garbage collectors delete only what the absent-from-desired / no-template lookup edge selects, with no early success or skip in the delete loop; the two collectors are the only delete sites. Decides these shapes for every path, not what functions or the API server do.",
+  "note": "Assumes FunctionRunner implementations and client.Reader calls do not write. Not decided: that observed equals 'previously composed by this XR', transient API-server deletes.",
+  "technique": "static analysis: must-not-precede reachability, loop early-exit / bypass analysis, enum exhaustiveness from go/types constants, who-may-call inventory",
+ },
+ "C05": {
+  "text": "Static analysis: function-supplied and stored conditions reach SetConditions only over IsSystemConditionType==false; a rejected (invalid) apply that continues is recorded without Synced=true; unready/unsynced resources are collected completely; updateXRConditions is decided path by path (16 loop-free paths, phi/slot definitions resolved along each, the branch on readyCond.Status pruned with the constructors' constant Status) so that a Status-True Ready/Synced reaches SetConditions only under the stated conditions; claim Available needs ok(Sync) and the XR-Ready edge. Decides the shape and the finite path table, not readiness-check evaluation.",
+  "note": "Assumes xpv1 constructors return the constant Status in their body. Not decided: readiness checks, transient conditions written through desired XR status, truth of per-resource flags beyond the invalid-apply arm.",
+  "technique": "static analysis: gate-crossing reachability, path enumeration with reaching-definition resolution and constant propagation of condition Status",
+ },
  "C08": {
   "text": "Static typestate analysis over every CFG path of the five teardown reconcilers and engine.Stop: finalizer removal, CRD delete and controller stop are each gated by the success edges / guards the dependency order needs. Decides the ordering discipline inside one reconcile, not the cross-controller interleavings.",
   "note": "Assumes API calls are atomic and acknowledged deletes take effect; interface calls resolve to the production implementations. Not decided: joint ordering across controllers and Kubernetes GC, third-party finalizer removal, multi-reconcile fault sequences.",
